@@ -20,6 +20,7 @@ type Family struct {
 	MaxOps   []int      // per slot: max ops before the end op
 	Ends     []string   // end ops for scripts with writes
 	SlotEnds [][]string // optional per-slot override of Ends
+	ReadOnly []bool     // optional per slot: the transaction is opened read-only (NewTransaction(false))
 	Reduce   bool       // prune merges equivalent under commuting independent steps
 	Symmetry bool       // all slots identical and alphabet closed under a<->b: enumerate canonical tuples only
 	Fresh    bool       // every history on a fresh DB (else: long-lived DB, one key namespace per history)
@@ -262,6 +263,11 @@ func (d *Driver) Enumerate(f *Family, sh vr.ShardInfo, expired func() bool) {
 			ends = f.SlotEnds[i]
 		}
 		lists[i] = Scripts(f.Slots[i], f.MaxOps[i], ends)
+		if f.ReadOnly != nil && f.ReadOnly[i] {
+			for j, sc := range lists[i] {
+				lists[i][j] = append(Script{"beginro"}, sc...)
+			}
+		}
 	}
 	idx := make([]int, len(lists))
 	item := 0
